@@ -808,6 +808,53 @@ def range_arg(body, op):
     return (adt.rsplit('::', 1)[-1], d.rv['fields'], vals, d.rv['ops'])
 
 
+def all_places(body):
+    """Every place mentioned in a live statement or terminator of `body` (reads and writes alike)."""
+    out = []
+
+    def walk(x):
+        if isinstance(x, dict):
+            if 'l' in x and 'p' in x and isinstance(x.get('l'), int):
+                out.append(x)
+            for v in x.values():
+                walk(v)
+        elif isinstance(x, list):
+            for v in x:
+                walk(v)
+    for b in body.live_blocks():
+        for st in body.stmts(b):
+            walk(st)
+        walk(body.term(b))
+    return out
+
+
+def const_splits(body):
+    """Every constant-position cut of a slice in `body`, normalised to the range form:
+    `x[..N]` -> ('RangeTo', (N,)), `x[N..]` -> ('RangeFrom', (N,)), `x[A..B]` -> ('Range', (A, B));
+    `x.split_at(N)` contributes ('RangeTo', (N,)) when its .0 is read and ('RangeFrom', (N,)) when its .1 is."""
+    from .facts import field_path
+    out = []
+    for c in body.calls(r'^std::ops::Index(Mut)?::index(_mut)?$'):
+        ra = range_arg(body, c.args[1])
+        if ra:
+            out.append((ra[0], tuple(v[1] for v in ra[2]), c))
+    for c in body.calls(r'core::slice::<impl \[T\]>::split_at(_mut)?$'):
+        n = classify_scalar(body, c.args[1])
+        if c.dest is None:
+            continue
+        used = set()
+        for pl in all_places(body):
+            if pl['l'] == c.dest['l']:
+                fp = field_path(pl)
+                if fp:
+                    used.add(fp[0])
+        if '0' in used:
+            out.append(('RangeTo', (n[1],), c))
+        if '1' in used:
+            out.append(('RangeFrom', (n[1],), c))
+    return out
+
+
 def array_len_of_ty(ty):
     m = re.search(r'\[[^;\[\]]+; (\d+)\]', ty)
     return int(m.group(1)) if m else None
@@ -1067,3 +1114,31 @@ def only_reached_via(F, fn_key, root_key):
             return False
         return all(ok(c, depth + 1) for c in callers)
     return ok(fn_key)
+
+
+def role_owner(F, key, table):
+    """The entry of a who-may table `key` belongs to: itself, or — for a private helper — the single listed function
+    every call path to it goes through.  A helper split out of a listed function keeps that function's role."""
+    if key in table:
+        return key
+    for k in table:
+        if k in F.bodies and only_reached_via(F, key, k):
+            return k
+    return None
+
+
+def family_ext(F, key):
+    """F.family(key) plus the families of private helpers every call path to which goes through `key`: the code that
+    runs as part of `key` and of nothing else, however it is split into functions."""
+    out = list(F.family(key))
+    have = set(b.key for b in out)
+    for fb in reach_bodies(F, key, precise=True):
+        r = fb.root or fb.key
+        if r in have or r == key or r not in F.bodies:
+            continue
+        if only_reached_via(F, r, key):
+            for x in F.family(r):
+                if x.key not in have:
+                    have.add(x.key)
+                    out.append(x)
+    return out
